@@ -129,6 +129,11 @@ def gen_ints(ctx, rng, nrand):
         p = be_min(n)
         cs.append(Case("E", "eint " + hx(txt), "emit " + hx(opaque(p)), "wv_int_enc"))
         cs.append(Case("P", "dint " + hx(p), "ok " + hx(txt), "wv_int_dec"))
+    # the same integers written with leading zeros denote the same values (decimal, never octal)
+    for n in (0, 7, 8, 9, 10, 64, 200, 255, 256, 777, 65535, 65536, 4294967295):
+        for pad in (1, 2, 6):
+            txt = ("0" * pad + str(n)).encode()
+            cs.append(Case("E", "eint " + hx(txt), "emit " + hx(opaque(be_min(n))), "wv_int_enc_leading_zeros"))
     # opaque integers of 0..8 octets, with and without leading zeros, around the 32-bit limit
     ops = set()
     for n in range(0, 9):
